@@ -97,7 +97,7 @@ func (x *Exec) ifaceCall(fr *Frame, st *State, ic *FuncContract, c *ssa.CallComm
 	}
 	res := x.ifaceApply(st, c.Value.Type(), c.Method, recv.X, args)
 	if len(ic.Ensures) > 0 {
-		env := &CEnv{x: x, fr: fr, st: st, old: st, pkg: x.vc.uni.pkgOfNamed(c.Value.Type()), vars: map[string]Value{}, mode: x.m(), hasResult: true, result: res}
+		env := &CEnv{x: x, fr: fr, st: st, old: st, pkg: x.vc.uni.pkgOfNamed(c.Value.Type()), vars: map[string]Value{}, mode: x.m(), hasResult: true, result: res, calleeEnv: true}
 		sig := c.Method.Type().(*types.Signature)
 		for i := 0; i < sig.Params().Len() && i < len(args); i++ {
 			if n := sig.Params().At(i).Name(); n != "" {
